@@ -601,14 +601,180 @@ def propagate_attribute_aliases(trees: Dict[str, ast.Module]) -> int:
             for k, st_ in enumerate(fn.body):
                 if st_ is not s:
                     fn.body[k] = R().visit(st_)
+            fn.body.remove(s)  # every read was replaced: the binding itself is a dead store of a plain attribute read
+            if not fn.body:
+                fn.body.append(ast.Pass())
             for x in ast.walk(fn):
                 ast.fix_missing_locations(x) if isinstance(x, ast.stmt) else None
             done += 1
+
+    # ---- flow-sensitive form, for what the rule above leaves: the alias is bound once, anywhere, and every read of it stands in
+    # the statements that follow it in the same block, before (or as an argument of) the first statement that could rebind
+    # the chain.  What a method called on `self` may rebind is the union, over the methods of that name, of the attributes
+    # they store to - followed through their own calls on self.
+    direct: Dict[str, set] = {}
+    calls_self: Dict[str, set] = {}
+    for t in trees.values():
+        for cls in [b for b in t.body if isinstance(b, ast.ClassDef)]:
+            for m in cls.body:
+                if isinstance(m, ast.FunctionDef):
+                    w = direct.setdefault(m.name, set())
+                    cs = calls_self.setdefault(m.name, set())
+                    for x in ast.walk(m):
+                        if isinstance(x, ast.Attribute) and isinstance(x.ctx, (ast.Store, ast.Del)) and isinstance(x.value, ast.Name) and x.value.id == "self":
+                            w.add(x.attr)
+                        if isinstance(x, ast.Call) and isinstance(x.func, ast.Attribute) and isinstance(x.func.value, ast.Name) and x.func.value.id == "self":
+                            cs.add(x.func.attr)
+                        if isinstance(x, ast.Call) and any(isinstance(g, ast.Name) and g.id == "self" for g in list(x.args) + [k.value for k in x.keywords]):
+                            cs.add("*")
+    mwrites: Dict[str, Optional[set]] = {}
+
+    def writes_of(name: str, seen=()) -> Optional[set]:
+        """attributes of self a method of this name may rebind; None = anything"""
+        if name in mwrites:
+            return mwrites[name]
+        if name not in direct or name in seen:
+            return set() if name in seen else None
+        out = set(direct[name])
+        for c in calls_self[name]:
+            if c == "*":
+                mwrites[name] = None
+                return None
+            sub = writes_of(c, seen + (name,))
+            if sub is None:
+                if c in direct:
+                    mwrites[name] = None
+                    return None
+                continue  # an attribute that holds a callable, not a method
+            out |= sub
+        mwrites[name] = out
+        return out
+
+    def flow_function(fn: ast.FunctionDef):
+        nonlocal done
+        stores = {}
+        for x in ast.walk(fn):
+            if isinstance(x, ast.Name) and isinstance(x.ctx, (ast.Store, ast.Del)):
+                stores[x.id] = stores.get(x.id, 0) + 1
+            elif isinstance(x, ast.arg):
+                stores[x.arg] = stores.get(x.arg, 0) + 1
+            elif isinstance(x, (ast.Global, ast.Nonlocal)):
+                for n_ in x.names:
+                    stores[n_] = stores.get(n_, 0) + 2
+        nested = [x for x in ast.walk(fn) if x is not fn and isinstance(x, (ast.FunctionDef, ast.Lambda))]
+        blocks = []
+        for x in ast.walk(fn):
+            if x is not fn and isinstance(x, (ast.FunctionDef, ast.Lambda, ast.ClassDef)):
+                continue
+            for fld in ("body", "orelse", "finalbody"):
+                b = getattr(x, fld, None)
+                if isinstance(b, list) and b and isinstance(b[0], ast.stmt):
+                    blocks.append(b)
+        for block in blocks:
+            for i, s in enumerate(block):
+                if not (isinstance(s, ast.Assign) and len(s.targets) == 1 and isinstance(s.targets[0], ast.Name) and isinstance(s.value, ast.Attribute)):
+                    continue
+                a = s.targets[0].id
+                chain = _chain_text(s.value)
+                if chain is None or stores.get(a, 0) != 1:
+                    continue
+                parts = chain.split(".")
+                root = parts[0]
+                if stores.get(root, 0) > (1 if root in [x.arg for x in fn.args.args + fn.args.kwonlyargs] else 0):
+                    continue
+                if any(isinstance(y, ast.Name) and y.id == a for nf in nested for y in ast.walk(nf)):
+                    continue
+                prefixes = {".".join(parts[:k]) for k in range(2, len(parts) + 1)}
+                objs = {".".join(parts[:k]): parts[k] for k in range(1, len(parts))}  # object chain -> the attribute of it the alias goes through
+
+                def uses_in(node):
+                    return [x for x in ast.walk(node) if isinstance(x, ast.Name) and x.id == a and isinstance(x.ctx, ast.Load)]
+
+                def dangerous_calls(node):
+                    out = []
+                    for x in ast.walk(node):
+                        if not isinstance(x, ast.Call):
+                            continue
+                        hit = False
+                        if isinstance(x.func, ast.Attribute):
+                            oc = _chain_text(x.func.value)
+                            if oc in objs:
+                                if oc == root and root == "self":
+                                    w = writes_of(x.func.attr)
+                                    hit = w is None or objs[oc] in w
+                                else:
+                                    hit = objs[oc] in rebindable
+                        for g in list(x.args) + [k.value for k in x.keywords]:
+                            gc = _chain_text(g) if isinstance(g, (ast.Attribute, ast.Name)) else None
+                            if gc in objs and objs[gc] in rebindable:
+                                hit = True
+                        if hit:
+                            out.append(x)
+                    return out
+
+                def prefix_stores(node):
+                    return [x for x in ast.walk(node) if isinstance(x, ast.Attribute) and isinstance(x.ctx, (ast.Store, ast.Del)) and _chain_text(x) in prefixes]
+
+                all_uses = uses_in(fn)
+                region = block[i + 1:]
+                in_region = {id(u) for st_ in region for u in uses_in(st_)}
+                if not all_uses or any(id(u) not in in_region for u in all_uses):
+                    continue
+                valid = True
+                ok = True
+                todo = []
+                for st_ in region:
+                    us = uses_in(st_)
+                    if not valid:
+                        if us:
+                            ok = False
+                            break
+                        continue
+                    dc = dangerous_calls(st_)
+                    ps = prefix_stores(st_)
+                    if not dc and not ps:
+                        todo.append(st_)
+                        continue
+                    compound = any(isinstance(getattr(st_, fld, None), list) and getattr(st_, fld) and isinstance(getattr(st_, fld)[0], ast.stmt) for fld in ("body", "orelse", "finalbody"))
+                    if us:
+                        if compound or len(dc) > 1:
+                            ok = False
+                            break
+                        if dc:
+                            # the reads must all be arguments of the call that may rebind: they are evaluated before it runs
+                            inside = {id(y) for g in list(dc[0].args) + [k.value for k in dc[0].keywords] for y in ast.walk(g)}
+                            if any(id(u) not in inside for u in us):
+                                ok = False
+                                break
+                        if ps and not (isinstance(st_, ast.Assign) and all(id(u) in {id(y) for y in ast.walk(st_.value)} for u in us)):
+                            ok = False
+                            break
+                        todo.append(st_)
+                    valid = False
+                if not ok or not todo:
+                    continue
+
+                class R(ast.NodeTransformer):
+                    def visit_Name(self, n):
+                        if n.id == a and isinstance(n.ctx, ast.Load):
+                            return ast.copy_location(copy.deepcopy(s.value), n)
+                        return n
+
+                for st_ in todo:
+                    block[block.index(st_)] = R().visit(st_)
+                block.remove(s)
+                for x in ast.walk(fn):
+                    ast.fix_missing_locations(x) if isinstance(x, ast.stmt) else None
+                done += 1
 
     for t in trees.values():
         for x in ast.walk(t):
             if isinstance(x, ast.FunctionDef):
                 do_function(x)
+    for t in trees.values():
+        for x in ast.walk(t):
+            if isinstance(x, ast.FunctionDef):
+                flow_function(x)
     return done
 
 
